@@ -154,8 +154,22 @@ pub fn run(ws: &[&str]) -> String {
             std::panic::panic_any(Exhausted);
         }
         let k = script[*p];
+        let i = *p;
         *p += 1;
-        kinds::response_of(k)
+        // every other reply carries headers that say nothing about the protocol state (a rate
+        // limiter's Retry-After, cache directives, a Date): the waits may not depend on them
+        kinds::response_of(k).map(|mut resp| {
+            if (i + script.len()) % 2 == 0 {
+                let h = resp.headers_mut();
+                h.insert(http::header::RETRY_AFTER, http::HeaderValue::from_static(["0", "1", "120"][i % 3]));
+                h.insert(http::header::CACHE_CONTROL, http::HeaderValue::from_static("no-store, max-age=0"));
+                h.insert(http::header::PRAGMA, http::HeaderValue::from_static("no-cache"));
+                h.insert(http::header::DATE, http::HeaderValue::from_static("Thu, 01 Jan 1970 00:00:00 GMT"));
+                h.insert("x-ratelimit-reset", http::HeaderValue::from_static("1"));
+                h.insert("x-poll-interval", http::HeaderValue::from_static("1"));
+            }
+            resp
+        })
     };
     let log_sleep = |d: Duration| {
         let s = seq.fetch_add(1, std::sync::atomic::Ordering::SeqCst);
